@@ -192,6 +192,86 @@ def walk(tree: T.Any) -> T.Tuple[T.List[T.Any], int]:
     return out, maxdepth
 
 
+# WHY is a tree too deep for the (recursive) printer?  The links of its deepest root-to-leaf path are sorted into
+#  left-chain    the left operand of a binary operator / the object of an index or method call: `1 + 1 + ...`,
+#                `a[0][0]...`, `a.m().m()...` - a chain written flat, without any nesting in the text
+#  assign-chain  the value of an assignment: `a = a = ... = 1` (flat as well, right-recursive)
+#  brackets      through ( ) [ ] { } and call / index arguments - nesting written in the text
+#  blocks        through if / foreach bodies - nesting written in the text
+#  other         right operands, unary operators, ternary branches, conditions - never the cause: the grammar recurses
+#                only through the four kinds above, so these links are incidental and not counted
+_LEFT_CHAIN = frozenset({('ArithmeticNode', 'left'), ('AndNode', 'left'), ('OrNode', 'left'), ('ComparisonNode', 'left'),
+                         ('IndexNode', 'iobject'), ('MethodNode', 'source_object')})
+_ASSIGN_CHAIN = frozenset({('AssignmentNode', 'value'), ('PlusAssignmentNode', 'value')})
+_BRACKET_LINKS = frozenset({('ParenthesizedNode', 'inner'), ('ArrayNode', 'args'), ('DictNode', 'args'), ('FunctionNode', 'args'),
+                            ('MethodNode', 'args'), ('IndexNode', 'index'), ('ArgumentNode', 'arguments'),
+                            ('ArgumentNode', 'kwargs')})
+_BLOCK_LINKS = frozenset({('CodeBlockNode', 'lines'), ('IfClauseNode', 'ifs'), ('IfClauseNode', 'elseblock'), ('IfNode', 'block'),
+                          ('ElseNode', 'block'), ('ForeachClauseNode', 'block'), ('TestCaseClauseNode', 'block')})
+_DEEP_MECHANISM = {
+    'left-chain': 'printer-recursion-error-deep-tree',            # the listed finding: flat operator / postfix chains
+    'assign-chain': 'printer-recursion-error-assignment-chain',
+    'brackets': 'printer-recursion-error-nested-brackets',
+    'blocks': 'printer-recursion-error-nested-blocks',
+}
+# a tie goes to the nesting written in the text; one kind must explain >= 90 % of the causal links of the path,
+# otherwise the tree is deep for mixed reasons (own mechanism, never one of the listed findings)
+_DEEP_TIE_ORDER = ('brackets', 'blocks', 'assign-chain', 'left-chain')
+_DEEP_DOMINANCE = 0.9
+
+
+def deepest_path_links(tree: T.Any) -> T.Dict[str, int]:
+    """Link kinds on the deepest root-to-leaf path of the tree (iterative)."""
+    BaseNode = mparser.BaseNode
+    parent: T.Dict[int, T.Tuple[int, str]] = {}        # id(child) -> (id(parent), link kind)
+    seen: T.Set[int] = {id(tree)}
+    stack: T.List[T.Tuple[T.Any, int]] = [(tree, 1)]
+    best, best_depth = id(tree), 1
+    while stack:
+        node, depth = stack.pop()
+        if depth > best_depth:
+            best, best_depth = id(node), depth
+        cname = type(node).__name__
+        for attr, v in vars(node).items():
+            if attr == 'whitespaces':
+                continue
+            if isinstance(v, BaseNode):
+                kids: T.Iterable[T.Any] = (v,)
+            elif isinstance(v, (list, tuple)):
+                kids = [x for x in v if isinstance(x, BaseNode)]
+            elif isinstance(v, dict):
+                kids = [x for kv in v.items() for x in kv if isinstance(x, BaseNode)]
+            else:
+                continue
+            key = (cname, attr)
+            kind = ('left-chain' if key in _LEFT_CHAIN else 'assign-chain' if key in _ASSIGN_CHAIN else
+                    'brackets' if key in _BRACKET_LINKS else 'blocks' if key in _BLOCK_LINKS else 'other')
+            for k in kids:
+                if id(k) not in seen:
+                    seen.add(id(k))
+                    parent[id(k)] = (id(node), kind)
+                    stack.append((k, depth + 1))
+    links: T.Dict[str, int] = {}
+    cur = best
+    while cur in parent:
+        cur, kind = parent[cur]
+        links[kind] = links.get(kind, 0) + 1
+    return links
+
+
+def classify_deep_tree(tree: T.Any) -> T.Tuple[str, T.Dict[str, int]]:
+    links = deepest_path_links(tree)
+    causal = {k: links.get(k, 0) for k in _DEEP_TIE_ORDER}
+    total = sum(causal.values())
+    if not total:
+        return 'printer-recursion-error-other-nesting', links
+    top = max(causal.values())
+    kind = next(k for k in _DEEP_TIE_ORDER if causal[k] == top)
+    if top < _DEEP_DOMINANCE * total:
+        return 'printer-recursion-error-mixed-nesting', links
+    return _DEEP_MECHANISM[kind], links
+
+
 def raw_print(node: T.Any) -> str:
     p = RawPrinter()
     node.accept(p)
@@ -250,6 +330,9 @@ def classify_internal_error(text: str, e: BaseException) -> str:
         return 'dict-key-with-empty-operand-unhashable'
     if isinstance(e, UnicodeDecodeError) and 'unicodeescape' in msg:
         return 'string-escape-unicode-decode-error'
+    if isinstance(e, ValueError) and 'integer string conversion' in msg and re.search(r'[1-9]\d{4300}', text):
+        # int() refuses decimal strings with more than sys.get_int_max_str_digits() (4300) digits
+        return 'internal-error:ValueError:huge-integer-literal'
     return 'internal-error:' + type(e).__name__
 
 
@@ -316,7 +399,8 @@ def check_tree(text: str, tree: T.Any, out: Outcome, reparse: bool = True) -> No
         printed = raw_print(tree)
     except RecursionError as e:
         if depth >= DEEP_NESTING_MIN:
-            out.bad('printer-recursion-error-deep-tree', tree_depth=depth, exception=_exc_brief(e))
+            mech, spine = classify_deep_tree(tree)
+            out.bad(mech, tree_depth=depth, deepest_path_links=spine, exception=_exc_brief(e))
         else:
             out.bad('printer-internal-error:RecursionError', tree_depth=depth, exception=_exc_brief(e))
     except Exception as e:
@@ -566,6 +650,10 @@ def reparse_alone(s: str, node: T.Any) -> str:
         except RecursionError:
             return ''      # depth class, decided on the whole text
         except Exception as e:
+            if isinstance(e, MesonException) and 'nesting depth' in str(e) and bracket_depth(src) >= DEEP_NESTING_MIN:
+                # the slice of a construct nested close to the parser's depth limit is itself close to it (and is
+                # parsed here under a deeper Python stack): depth class as well, decided on the whole text
+                return ''
             last = f'slice does not parse: {type(e).__name__}: {str(e)[:80]}'
             continue
         if len(blk.lines) != 1:
@@ -636,6 +724,12 @@ def check_rewriter_splice(text: str, scratch_file: str, max_nodes: int = 2) -> T
         except RecursionError:
             continue          # depth class
         except Exception as ex:
+            if isinstance(ex, ValueError) and 'integer string conversion' in str(ex):
+                # AstPrinter.visit_NumberNode does str(node.value): fails for a (0x/0o/0b) literal whose value has more
+                # than 4300 decimal digits.  That is the rewriter's re-printing (property C17), raised before anything
+                # is spliced: not an observation about extents - counted, not judged here
+                counts['rewriter-splice:not-judged-astprinter-int-str-limit'] = counts.get('rewriter-splice:not-judged-astprinter-int-str-limit', 0) + 1
+                continue
             bad.append(('rewriter-splice-internal-error:' + type(ex).__name__,
                         {'node': kind, 'construct': text[s:e][:200], 'exception': _exc_brief(ex)}))
             continue
